@@ -5,6 +5,7 @@ import (
 	"fmt"
 
 	"github.com/robfig/soy/ast"
+	"github.com/robfig/soy/soymsg"
 )
 
 // Validate checks if the given message is representable in a PO file.
@@ -13,7 +14,10 @@ import (
 // Rules:
 //  - If a message contains a plural, it must be the sole child.
 //  - A plural contains exactly {case 1} and {default} cases.
+//  - No text reads as a placeholder ({NAME}): a msgid cannot escape it, and the
+//    translation would be rendered with a placeholder in its place.
 func Validate(n *ast.MsgNode) error {
+	var bodies = []ast.ParentNode{n.Body}
 	for i, child := range n.Body.Children() {
 		if n, ok := child.(*ast.MsgPluralNode); ok {
 			if i != 0 {
@@ -22,6 +26,35 @@ func Validate(n *ast.MsgNode) error {
 			if len(n.Cases) != 1 || n.Cases[0].Value != 1 {
 				return fmt.Errorf("PO requires two plural cases [1, default]. found %v", n.Cases)
 			}
+			bodies = []ast.ParentNode{n.Cases[0].Body, n.Default}
+		}
+	}
+	for _, body := range bodies {
+		if err := readsBack(body); err != nil {
+			return err
+		}
+	}
+	return nil
+}
+
+// readsBack checks that the placeholders read from the msgid of the given
+// message body are exactly its placeholder nodes, in order.
+func readsBack(body ast.ParentNode) error {
+	var buf bytes.Buffer
+	var names []string
+	for _, child := range body.Children() {
+		writeph(&buf, child)
+		if ph, ok := child.(*ast.MsgPlaceholderNode); ok {
+			names = append(names, ph.Name)
+		}
+	}
+	var i = 0
+	for _, part := range soymsg.Parts(buf.String()) {
+		if ph, ok := part.(soymsg.PlaceholderPart); ok {
+			if i >= len(names) || names[i] != ph.Name {
+				return fmt.Errorf("text {%s} cannot be told from a placeholder in a PO file", ph.Name)
+			}
+			i++
 		}
 	}
 	return nil
